@@ -227,10 +227,10 @@ func c16Upper(s string) string {
 
 func (m *c16Module) enumByName(n string) *c16Enum {
 	if i := strings.Index(n, "::"); i >= 0 {
-		if m.Dep != nil && m.Dep.Name == n[:i] {
-			return m.Dep.enumByName(n[i+2:])
-		}
 		if n[:i] != m.Name {
+			if m.Dep != nil { // the included module, or one it includes
+				return m.Dep.enumByName(n)
+			}
 			return nil
 		}
 		n = n[i+2:]
@@ -244,10 +244,10 @@ func (m *c16Module) enumByName(n string) *c16Enum {
 }
 func (m *c16Module) isStruct(n string) bool {
 	if i := strings.Index(n, "::"); i >= 0 {
-		if m.Dep != nil && m.Dep.Name == n[:i] {
-			return m.Dep.isStruct(n[i+2:])
-		}
 		if n[:i] != m.Name {
+			if m.Dep != nil {
+				return m.Dep.isStruct(n)
+			}
 			return false
 		}
 		n = n[i+2:]
@@ -521,7 +521,8 @@ func c16TV(a Args, res *Result, t2g string, dir string, progs []*c16Prog, per, c
 		decls.WriteString(d)
 	}
 	for _, p := range live { // the packages the registrations mention (a module without declarations has no package)
-		if strings.Contains(body.String()+decls.String(), p.Mod.Name+".") {
+		if strings.Contains(body.String()+decls.String(), " "+p.Mod.Name+".") || strings.Contains(body.String()+decls.String(), "("+p.Mod.Name+".") ||
+			strings.Contains(body.String()+decls.String(), "*"+p.Mod.Name+".") || strings.Contains(body.String()+decls.String(), "]"+p.Mod.Name+".") {
 			fmt.Fprintf(&imps, "\t%s %q\n", p.Mod.Name, "c16tv/gen/"+p.Mod.Name)
 		}
 	}
@@ -932,6 +933,22 @@ func c16BackEnd(a Args, rng *rand.Rand, res *Result, cases []c16Case, replay *c1
 		c16TV(a, res, t2g, filepath.Join(base, fmt.Sprintf("tv%d", b)), progs, per, calls, &off)
 		os.RemoveAll(filepath.Join(base, fmt.Sprintf("tv%d", b)))
 	}
+	// an include of an include: Top includes Mid only and uses the types of Leaf, which Mid includes (the defining
+	// module of every type named in the generated code must be imported)
+	{
+		leaf := c16TvProgram(rng, 9100, c16GenOpt{Compilable: true, Small: true}, nil)
+		for !c16HasTypes(leaf.Mod) {
+			leaf = c16TvProgram(rng, 9100, c16GenOpt{Compilable: true, Small: true}, nil)
+		}
+		mid := c16TvProgram(rng, 9101, c16GenOpt{Compilable: true, Small: true, IdBase: 100}, leaf)
+		top := c16TvProgram(rng, 9102, c16GenOpt{Compilable: true, IdBase: 200, Transitive: true}, mid)
+		c16TV(a, res, t2g, filepath.Join(base, "tvchain"), []*c16Prog{leaf, mid, top}, per, calls, &off)
+		idx += 3
+	}
+	// three modules in one file, the last one using types of the first two (and the second those of the first)
+	c16CompileText(res, t2g, filepath.Join(base, "tvthree"), map[string]string{"three.tars": c16ThreeModules}, "three.tars", nil)
+	c16CompileText(res, t2g, filepath.Join(base, "tvchain4"), c16Chain4, "top.tars", nil)
+	c16CompileText(res, t2g, filepath.Join(base, "tvchain4c"), c16Chain4, "top.tars", []string{"-module-cycle"}) // imports by (file, module)
 	// -module-cycle lays the packages out by file and module: a dependent pair must still compile (compile only)
 	{
 		dep := c16TvProgram(rng, 9000, c16GenOpt{Compilable: true, Small: true}, nil)
@@ -944,6 +961,44 @@ func c16BackEnd(a Args, rng *rand.Rand, res *Result, cases []c16Case, replay *c1
 	res.Stats["tv_wall_s"] = time.Since(t1).Seconds()
 	res.Evaluations += idx
 	c16Bindings(a, res, t2g, filepath.Join(base, "bind"))
+}
+
+const c16ThreeModules = `module MA { struct S { 0 require int x; }; enum K { K0, K1 }; };
+module MB { struct T { 0 require MA::S s; 1 optional MA::K k = K1; }; enum E { P, Q }; };
+module MC { struct U { 0 require MB::T t; 1 optional MA::S s; 2 optional MB::E e = Q; 3 optional vector<MB::T> v; 4 optional map<string, MA::S> m; };
+  interface I { MB::T f(MA::S a, out MB::E e, out vector<MA::K> ks); }; };
+`
+
+// a chain of four files, each including only the next; the first uses a type of every other one
+var c16Chain4 = map[string]string{
+	"top.tars":  `#include "m1.tars"` + "\nmodule Top { struct Holder { 0 require Leaf::Item item; 1 optional M1::Box box; 2 optional vector<M2::Pack> packs; 3 optional map<string, Leaf::Kind> kinds; };\n interface Svc { Leaf::Item get(M2::Pack p, out Leaf::Kind k); }; };\n",
+	"m1.tars":   `#include "m2.tars"` + "\nmodule M1 { struct Box { 0 require M2::Pack p; 1 optional Leaf::Item i; }; };\n",
+	"m2.tars":   `#include "leaf.tars"` + "\nmodule M2 { struct Pack { 0 require Leaf::Item i; 1 optional Leaf::Kind k = SMALL; }; };\n",
+	"leaf.tars": "module Leaf { enum Kind { BIG, SMALL }; struct Item { 0 require int id; 1 optional string name; }; };\n",
+}
+
+// c16CompileText: fixed files through tars2go (run on main with a bare name) and go build; both must succeed
+func c16CompileText(res *Result, t2g string, dir string, files map[string]string, main string, flags []string) {
+	os.MkdirAll(dir, 0o755)
+	c16WriteModule(dir)
+	fb := map[string]B{}
+	for n, t := range files {
+		os.WriteFile(filepath.Join(dir, n), []byte(t), 0o644)
+		if n != main {
+			fb[n] = B(t)
+		}
+	}
+	tc := c16Case{Kind: "tv-text", Input: B(files[main]), Text: files[main], Files: fb, Msg: strings.Join(flags, " ")}
+	args := append(append([]string{"-outdir", "gen", "-module", "c16tv"}, flags...), main)
+	out, code, to := c16Run(dir, 30000, nil, t2g, args...)
+	if to || code != 0 {
+		res.Failures = append(res.Failures, Failure{Sig: "tars2go/gen/rejects-valid-program/" + c16DiagClass(out), Desc: fmt.Sprintf("tars2go exits %d (timeout %v) on valid files %s: %s", code, to, main, c16Trunc(c16LastLine(out), 300)), Replay: tc})
+		return
+	}
+	o, c, _ := c16Run(dir, 600000, c16GoEnv(), "go", "build", "./gen/...")
+	if c != 0 {
+		res.Failures = append(res.Failures, Failure{Sig: "tars2go/gen/does-not-compile/" + c16CompileClass(o), Desc: fmt.Sprintf("the Go code generated for valid files (%s and %d more) does not compile: %s", main, len(files)-1, c16Trunc(c16FirstError(o), 400)), Replay: tc})
+	}
 }
 
 // c16CompileOnly: the last program (which includes the others) through tars2go with the flags, then go build
